@@ -513,7 +513,8 @@ def rule_rec_guard(ctx):
                             continue
                         t_ = ctx.pv.eval(fn, a, senv, 0)
                         node_terms.append(t_)
-                        fields |= TM.fields_in(t_)
+                        # what the node *is* made from (the conditions under which it is chosen are not a descent)
+                        fields |= TM.value_fields(t_)
                     if node_terms and all(t_[0] == 'param' for t_ in node_terms):
                         obs.append(ok('REC-GUARD', inst, 'delegates its own node argument unchanged to a helper of the same traversal (no descent on this edge)', loc))
                         continue
@@ -537,6 +538,19 @@ def rule_rec_guard(ctx):
                                        'possibly unbounded recursion'))
                         continue
                     vg, vwhy = _visited_guard(ctx, fn, call)
+                    if not vg:
+                        # the guard may sit where the pool reference is *taken* (`let next = match n { Spread(id) => { if
+                        # !visited.insert(id) { return }; &pool[id].children } .. }`) rather than around the call
+                        pool_nodes = []
+                        for a in call.get('args', []) + ([call['recv']] if call.get('k') == 'mcall' else []):
+                            for x in H.walk_through_locals(fn, a):
+                                if x['k'] == 'field' and ((x['name'] == 'selection_set' and x.get('adt', '').endswith('ResolvedFragment')) or
+                                                          (x['name'] in ('fields',) and x.get('adt', '').endswith('StoredInputType'))):
+                                    pool_nodes.append(x)
+                                if x['k'] in ('call', 'mcall') and any(p_.endswith(('Query::get_fragment', 'Schema::get_input')) for p_ in H.callee_paths(x)):
+                                    pool_nodes.append(x)
+                        if pool_nodes and all(_visited_guard(ctx, fn, pn)[0] for pn in pool_nodes):
+                            vg, vwhy = True, _visited_guard(ctx, fn, pool_nodes[0])[1] + ' where the reference is taken'
                     if vg:
                         obs.append(ok('REC-GUARD', inst, '%s; %s' % (kind, vwhy), loc))
                     else:
